@@ -341,6 +341,8 @@ pub struct EmittedReq {
     /// ids sent per processed packet (1-based packet index = position + 1) and whether on-distance
     pub packets: Vec<Vec<([u8; 32], bool)>>,
     pub completed_seen: bool,
+    /// the lookup (by number) that was running when the request was emitted
+    pub epoch: u64,
 }
 
 #[derive(Clone, PartialEq, Eq, Debug)]
@@ -398,6 +400,14 @@ pub struct Inst {
     /// into the lookup's candidate list), and the nodes the lookup has sent its request to so far
     pub query_start: Vec<[u8; 32]>,
     pub query_asked: std::collections::HashSet<[u8; 32]>,
+    /// number of the running (or last) lookup; nodes whose answer (any NODES packet) to a request of
+    /// the running lookup was processed; a request of the running lookup was dropped without the
+    /// lookup being told (answer of the wrong kind / from another address, failure after packets
+    /// that held nothing acceptable); nodes the running lookup was seen to ask a second time
+    pub query_epoch: u64,
+    pub query_answered: std::collections::HashSet<[u8; 32]>,
+    pub query_lost: bool,
+    pub query_dup: Vec<[u8; 32]>,
     /// `auto_nat_listen_duration` as the built configuration has it
     pub auto_nat: Option<Duration>,
     /// the connectivity timer of a family ran out (its socket was taken out of the record): votes of
@@ -444,6 +454,10 @@ impl Inst {
         cb.max_nodes_response(max_nodes);
         cb.incoming_bucket_limit(max_in.min(16));
         cb.ping_interval(Duration::from_secs(1_000_000));
+        // (the lookups' own timeouts read the real clock; a case takes milliseconds, but on a loaded
+        // machine it may take seconds: keep them out of reach)
+        cb.query_peer_timeout(Duration::from_secs(3600));
+        cb.query_timeout(Duration::from_secs(7200));
         cb.enr_peer_update_min(vote_min.max(2));
         if filter == Filter::Rej {
             cb.table_filter(filter_rej);
@@ -503,6 +517,10 @@ impl Inst {
             vote_min: vote_min.max(2),
             query_start: Vec::new(),
             query_asked: Default::default(),
+            query_epoch: 0,
+            query_answered: Default::default(),
+            query_lost: false,
+            query_dup: Vec::new(),
             auto_nat,
             revoked4: false,
             revoked6: false,
@@ -627,8 +645,8 @@ impl Inst {
                         let is_findnode = matches!(req.body, RequestBody::FindNode { .. });
                         let first_api = op_is_api && !out.iter().any(|o| matches!(o, Obs::Req(_)));
                         self.req_ids.insert(req.id.0.clone(), k);
-                        if op_is_query && is_findnode {
-                            self.query_asked.insert(contact.node_id().raw());
+                        if op_is_query && is_findnode && !self.query_asked.insert(contact.node_id().raw()) {
+                            self.query_dup.push(contact.node_id().raw());
                         }
                         self.reqs.push(EmittedReq {
                             id: req.id.clone(),
@@ -641,6 +659,7 @@ impl Inst {
                             received: 0,
                             packets: Vec::new(),
                             completed_seen: false,
+                            epoch: self.query_epoch,
                         });
                         out.push(Obs::Req(k));
                     }
@@ -1128,6 +1147,10 @@ impl ServiceRunner {
         if !q.is_empty() {
             s.push_str(&format!(" q={}", q.join(",")));
         }
+        // C09: a lookup never sends its request to the same node twice
+        for d in inst.query_dup.drain(..) {
+            s.push_str(&format!("\n!MON C09 lookup-sent-its-request-to-the-same-node-twice id={}", id8(&d)));
+        }
         if let Some(h) = inst.query.as_ref() {
             if h.is_finished() {
                 let h = inst.query.take().unwrap();
@@ -1139,6 +1162,15 @@ impl ServiceRunner {
                 };
                 if let Some(n) = r.strip_prefix("ok:").and_then(|n| n.split(':').next().unwrap_or("").parse::<usize>().ok()) {
                     so.items.push(format!("qres:{}:{}", n, ids));
+                }
+                // C10: every node of the result answered a request of *this* lookup
+                if ids != "-" {
+                    let answered: std::collections::HashSet<String> = inst.query_answered.iter().map(|i| id8(i)).collect();
+                    for id in ids.split(',') {
+                        if !answered.contains(id) {
+                            s.push_str(&format!("\n!MON C10 lookup-result-names-a-node-that-did-not-answer-this-lookup id={}", id));
+                        }
+                    }
                 }
                 s.push_str(" qfin");
                 // C09: a lookup that ends hands its result (possibly empty) to the caller
@@ -1172,6 +1204,14 @@ impl ServiceRunner {
                 inst.query_k = None;
                 s.push_str(&format!("\n!INFO query-result {}", r));
             }
+        }
+        // C09: a lookup whose requests have all been answered or have failed goes on (another request,
+        // or its result) - it is not left waiting for something that will never come
+        if inst.query.is_some()
+            && !inst.query_lost
+            && !inst.reqs.iter().any(|r| r.is_query && r.epoch == inst.query_epoch && r.outstanding)
+        {
+            s.push_str("\n!MON C09 lookup-left-waiting-with-nothing-in-flight");
         }
         s
     }
@@ -1306,6 +1346,9 @@ impl ServiceRunner {
         let so = self.observe(x, self.insts[&x].reqs[k - 1].is_query, false);
         let banned = so.bans_node.iter().any(|n| n.raw() == from.node_id.raw()) || so.bans_ip.contains(&from.socket_addr.ip());
         let inst = self.insts.get_mut(&x).unwrap();
+        let cur_epoch = inst.query_epoch;
+        let q_lost = &mut inst.query_lost;
+        let q_answered = &mut inst.query_answered;
         let r = &mut inst.reqs[k - 1];
         let processed = was_active && right_addr && is_findnode && !callback;
         if !was_active || !right_addr {
@@ -1323,6 +1366,9 @@ impl ServiceRunner {
             }
             if was_active && !right_addr {
                 r.outstanding = false; // the service drops the request (see report)
+                if r.is_query && r.epoch == cur_epoch {
+                    *q_lost = true;
+                }
             }
             stats.bump("s.c11.ignored-packet");
             return so;
@@ -1332,6 +1378,9 @@ impl ServiceRunner {
             return so;
         }
         stats.bump("s.c11.nodes-packets");
+        if r.is_query && r.epoch == cur_epoch {
+            q_answered.insert(resp_id);
+        }
         // a ban hits the party that misbehaved - the node id it proved and the address it sent from -,
         // never an address that party merely claims (in its record)
         for ip in &so.bans_ip {
@@ -1625,9 +1674,20 @@ impl Runner for ServiceRunner {
                 let (Some(id), Some(a)) = (parse_peer(peer), parse_addr(addr)) else { return noop(out) };
                 let na = NodeAddress { socket_addr: a, node_id: NodeId::new(&id) };
                 let before = self.insts[&x].snapshot_digest();
+                let stored = self.insts[&x].discv5.table_entries_enr().into_iter().find(|e| e.node_id().raw() == id);
                 let _ = self.insts[&x].hout.try_send(HandlerOut::WhoAreYou(whoareyou_ref(na, [7u8; 12])));
                 let so = self.observe(x, false, false);
                 stats.bump("s.whoareyou-queries");
+                // C12: the transport keeps the newer of the record a peer attaches and the one the service
+                // knows - so the service has to say what it has stored for that node, wherever the packet
+                // came from (otherwise an older record rides in on the next handshake and replaces it)
+                if let Some(st) = stored {
+                    stats.bump("s.whoareyou-queries-for-a-stored-node");
+                    let want = format!("way:{}@{}:{}", id8(&id), sock_num(&a), rec_short(&st));
+                    if !so.items.iter().any(|i| *i == want) {
+                        out.push(format!("!MON C12 who-are-you-query-not-answered-with-the-stored-record id={} stored-seq={} from={}", id8(&id), st.seq(), a));
+                    }
+                }
                 let after = self.insts[&x].snapshot_digest();
                 if before != after {
                     out.push(format!("!MON C01 routing-table-changed-by-a-who-are-you-query peer={}", id8(&id)));
@@ -1676,6 +1736,29 @@ impl Runner for ServiceRunner {
                 }
                 out.push(format!("!OP sidle {} t={}{}", x, tok, sfx));
                 self.finish(x, "sidle", None, so, None, out, stats);
+            }
+            // the ban lists already hold N entries that are in force (an operator's block list, an hour of
+            // rate-limit bans)
+            ["sbanfill", _, n] => {
+                let n: u32 = n.parse().unwrap_or(0).min(5000);
+                for i in 0..n {
+                    let ip = IpAddr::V4(Ipv4Addr::new(172, 16 + (i >> 16) as u8, (i >> 8) as u8, i as u8));
+                    discv5::verif::limiter::ban_ip(ip, Some(Duration::from_secs(3600)));
+                    let mut raw = [0xb0u8; 32];
+                    raw[28..32].copy_from_slice(&i.to_be_bytes());
+                    discv5::verif::limiter::ban_node(NodeId::new(&raw), Some(Duration::from_secs(3600)));
+                }
+                // (they are there from the start: not reported as new bans)
+                let snap = discv5::verif::limiter::permit_ban_snapshot();
+                for (ip, exp) in &snap.ban_ips {
+                    self.ban_prev_ips.insert(*ip, *exp);
+                }
+                for (nid, exp) in &snap.ban_nodes {
+                    self.ban_prev_nodes.insert(nid.raw(), *exp);
+                }
+                stats.bump("s.ban-lists-prefilled");
+                out.push(format!("!OP sbanfill {}", x));
+                out.push("ok".into());
             }
             // real time passes
             ["ssleep", _, ms] => {
@@ -1958,6 +2041,9 @@ impl Runner for ServiceRunner {
                         if inst.reqs[k - 1].outstanding {
                             inst.reqs[k - 1].outstanding = false;
                             stats.bump("s.pong-processed");
+                            if inst.reqs[k - 1].is_query && inst.reqs[k - 1].epoch == inst.query_epoch {
+                                inst.query_lost = true;
+                            }
                         }
                         // (votes of a family whose connectivity test failed are not counted)
                         let revoked = if a.is_ipv6() { inst.revoked6 } else { inst.revoked4 };
@@ -2030,7 +2116,13 @@ impl Runner for ServiceRunner {
                         let resp = Response { id, body: ResponseBody::Talk { response: p.clone() } };
                         let _ = self.insts[&x].hout.try_send(HandlerOut::Response(from.clone(), Box::new(resp)));
                         let so = self.observe(x, false, false);
-                        self.insts.get_mut(&x).unwrap().reqs[k - 1].outstanding = false;
+                        {
+                            let inst = self.insts.get_mut(&x).unwrap();
+                            if inst.reqs[k - 1].outstanding && inst.reqs[k - 1].is_query && inst.reqs[k - 1].epoch == inst.query_epoch {
+                                inst.query_lost = true;
+                            }
+                            inst.reqs[k - 1].outstanding = false;
+                        }
                         out.push(format!("!OP {} talk {}", head, hx(&p)));
                         self.finish(x, "sresp", None, so, None, out, stats);
                     }
@@ -2044,11 +2136,19 @@ impl Runner for ServiceRunner {
                 let _ = self.insts[&x].hout.try_send(HandlerOut::RequestFailed(id, RequestError::Timeout));
                 let mut so = self.observe(x, is_q, false);
                 {
-                    let r = &mut self.insts.get_mut(&x).unwrap().reqs[k - 1];
+                    let inst = self.insts.get_mut(&x).unwrap();
+                    let cur = inst.query_epoch;
+                    let r = &mut inst.reqs[k - 1];
                     if r.outstanding && !r.callback && r.received > 0 {
                         stats.bump("s.fail-with-partial-nodes");
                     }
+                    // (a request that fails after packets which held nothing acceptable is reported to
+                    // the lookup neither as an answer nor as a failure)
+                    let partial = r.outstanding && r.is_query && r.epoch == cur && !r.packets.is_empty();
                     r.outstanding = false;
+                    if partial {
+                        inst.query_lost = true;
+                    }
                 }
                 stats.bump("s.failures");
                 let sfx = self.query_suffix(x, &mut so);
@@ -2086,6 +2186,10 @@ impl Runner for ServiceRunner {
                     let start: Vec<[u8; 32]> = inst.discv5.table_entries_id().into_iter().map(|id| id.raw()).collect();
                     inst.query_start = if start.len() <= k.unwrap_or(16) { start } else { Vec::new() };
                     inst.query_asked.clear();
+                    inst.query_epoch += 1;
+                    inst.query_answered.clear();
+                    inst.query_lost = false;
+                    inst.query_dup.clear();
                     if !inst.query_start.is_empty() {
                         stats.bump("s.c10.lookups-with-start-set-tracked");
                     }
@@ -2508,6 +2612,10 @@ fn gen_c11(rng: &mut Rng, ops: &mut Vec<String>, stats: &mut Stats) {
         ops.push(format!("snew A k{} 1 4 0 ip4 all {} 16 0", a, maxn_a));
     }
     ops.push(format!("snew B k{} {} 4 0 ip4 all {} 16 0", b, bseq, maxn_b));
+    if rng.chance(1, 12) {
+        stats.bump("gen.c11.ban-lists-prefilled");
+        ops.push(format!("sbanfill A {}", rng.range(1000, 1300)));
+    }
     let bid = id_of_seed(b);
     let bhex = hex::encode(bid);
     // the honest responder's table: records at distances 256..249 from it
@@ -2673,11 +2781,18 @@ fn gen_c14(rng: &mut Rng, ops: &mut Vec<String>, stats: &mut Stats) {
     let n = rng.range(6, 40);
     let mut members: Vec<u64> = Vec::new();
     let mut member_seq: std::collections::HashMap<u64, u64> = std::collections::HashMap::new();
+    // (a node configured to serve up to 125 records, with a table of 60-90 records of the maximum
+    // size: its answers run to more than 15 packets)
+    let large = maxn == 125 && rng.chance(2, 3);
+    let n = if large { rng.range(64, 90) } else { n };
+    if large {
+        stats.bump("gen.c14.answers-of-more-than-15-packets");
+    }
     for _ in 0..n {
-        let d = 256 - [0u64, 0, 0, 0, 1, 1, 1, 2, 2, 3, 4, 5][rng.below(12) as usize];
+        let d = if large { 256 - rng.below(6) } else { 256 - [0u64, 0, 0, 0, 1, 1, 1, 2, 2, 3, 4, 5][rng.below(12) as usize] };
         if let Some(s) = mine(rng.below(1 << 30), |id| dist(&aid, id) == d) {
             // record sizes from the minimum up to the 300-byte limit
-            let pad = *rng.pick(&[0usize, 40, 100, 130, 150, 156, 160, 200, 200, 200]);
+            let pad = if large { 200 } else { *rng.pick(&[0usize, 40, 100, 130, 150, 156, 160, 200, 200, 200]) };
             let sh = contact_shape(mode, rng);
             let mseq = rng.range(1, 70000);
             let spec = format!("k{}:{}:{}:{}", s, mseq, sh, pad);
